@@ -103,6 +103,8 @@ def run(ctx) -> list[Inst]:
 
     pctor = find_ctor(f, 'malParser')
     parser_var, passign = bound_var(pctor)
+    _lc = find_ctor(f, 'malLexer')
+    lexer_var_early = bound_var(_lc)[0] if _lc is not None else None
     parse_node = None
     for n in own_nodes(f.node):
         if isinstance(n, ast.Call) and isinstance(n.func, ast.Attribute) and not n.args and n.func.attr == 'mal' \
@@ -112,6 +114,7 @@ def run(ctx) -> list[Inst]:
         raise AnalysisError(f'{f.short}: start-rule invocation <parser>.mal() not found')
     idiom = None
     detail = ''
+    weak = None        # (class, method): the installed listener's syntaxError can return normally
     for (lexpr, node) in installs_on(pctor, parser_var, passign):
         if not (cfg.dominates(node, parse_node) and node is not parse_node):
             detail = 'listener is added after/beside the parse call'
@@ -129,6 +132,7 @@ def run(ctx) -> list[Inst]:
             idiom = f'1: {c.name}.syntaxError always raises; listener installed before the start rule'
         else:
             detail = f'{c.name}.syntaxError can return normally (logs / counts only)'
+            weak = (c, m)
     for n in own_nodes(f.node):
         # idiom 2
         if isinstance(n, ast.Assign) and isinstance(n.targets[0], ast.Attribute) \
@@ -168,7 +172,37 @@ def run(ctx) -> list[Inst]:
         if isinstance(n, ast.Assign) and isinstance(n.targets[0], ast.Attribute) \
                 and n.targets[0].attr in ('_errHandler', 'errHandler'):
             other_handling = True
-    if not idiom and other_handling:
+    # a listener that can return normally is no handling unless something else tests for errors afterwards
+    post = False
+    for n in own_nodes(f.node):
+        nn = cfg.node_of(n) if isinstance(n, ast.stmt) else None
+        if isinstance(n, ast.Raise) and nn is not None and cfg.dominates(parse_node, nn) and nn is not parse_node:
+            post = True
+        if isinstance(n, ast.Assign) and isinstance(n.targets[0], ast.Attribute) \
+                and n.targets[0].attr in ('_errHandler', 'errHandler'):
+            post = True
+    if weak is not None:
+        # state written by the weak listener and read by compile() after the parse counts as a later test
+        wc, wm = weak
+        written = {t.attr for x in own_nodes(wm.node) if isinstance(x, (ast.Assign, ast.AugAssign))
+                   for t in (x.targets if isinstance(x, ast.Assign) else [x.target])
+                   if isinstance(t, ast.Attribute)} | \
+                  {x.func.value.attr for x in own_nodes(wm.node) if isinstance(x, ast.Call)
+                   and isinstance(x.func, ast.Attribute) and x.func.attr in ('append', 'add')
+                   and isinstance(x.func.value, ast.Attribute)}
+        for g in cfg.nodes:
+            if g.kind == 'if' and cfg.dominates(parse_node, g) and \
+                    any(isinstance(x, ast.Attribute) and x.attr in written for x in ast.walk(g.ast.test)):
+                post = True
+    if not idiom and weak is not None and not post:
+        wc, wm = weak
+        insts.append(Inst(
+            RULE, wm.short, construct, 'violation',
+            msg=(f"{wc.name}.syntaxError is the only error handling of compile() and it can return without raising "
+                 f"on some path: for such errors ANTLR repairs the input in-line (missing / extraneous token) and goes "
+                 f"on, nothing tests the error count afterwards, and the file is compiled from what was recovered"),
+            file=wm.module.relpath, line=wm.node.lineno, props=props))
+    elif not idiom and other_handling:
         insts.append(Inst(RULE, f.short, construct, 'unproven',
                           msg=('error handling is present but matches none of the accepted idioms'
                                + (f' ({detail})' if detail else '')),
@@ -185,6 +219,49 @@ def run(ctx) -> list[Inst]:
                  "; ANTLR's default listener only prints and recovers, so a malformed file yields a "
                  "specification assembled from the fragments that parsed"),
             file=rel, line=parse_node.lineno, props=props))
+    # (a5) the error raised by the listener is not caught around the start rule
+    pm = {}
+    for n in ast.walk(f.node):
+        for ch in ast.iter_child_nodes(n):
+            pm[id(ch)] = n
+    for n in own_nodes(f.node):
+        if not (isinstance(n, ast.Call) and isinstance(n.func, ast.Attribute) and n.func.attr == 'mal'
+                and isinstance(n.func.value, ast.Name) and n.func.value.id == parser_var):
+            continue
+        cur = n
+        while id(cur) in pm:
+            par = pm[id(cur)]
+            if isinstance(par, ast.Try) and any(cur is s or any(x is cur for x in ast.walk(s)) for s in par.body):
+                for h in par.handlers:
+                    hn = cfg.node_of(h.body[0]) if h.body else None
+                    ends_raise = bool(h.body) and all(
+                        isinstance(x, ast.Raise) for x in [h.body[-1]]) 
+                    broad = h.type is None or any(t in stmt_text(h.type) for t in
+                                                  ('Exception', 'MalCompilerError', 'BaseException', 'Error'))
+                    if not broad or ends_raise:
+                        continue
+                    retry = [x for s_ in h.body for x in ast.walk(s_) if isinstance(x, ast.Call)
+                             and isinstance(x.func, ast.Attribute) and x.func.attr == 'mal']
+                    relex = any(isinstance(x, ast.Call) and (
+                        (isinstance(x.func, ast.Name) and x.func.id in ('malLexer', 'FileStream', 'InputStream'))
+                        or (isinstance(x.func, ast.Attribute) and x.func.attr == 'reset'
+                            and isinstance(x.func.value, ast.Name) and x.func.value.id == lexer_var_early))
+                                for s_ in h.body for x in ast.walk(s_))
+                    construct5 = '(a) errors raised while parsing are not caught around the start rule'
+                    if retry and relex:
+                        insts.append(Inst(RULE, f.short, construct5, 'unproven',
+                                          msg='two-stage parse with a fresh lexer: not decided', file=rel,
+                                          line=h.lineno, props=props))
+                    else:
+                        insts.append(Inst(
+                            RULE, f.short, construct5, 'violation',
+                            msg=(f"'except {stmt_text(h.type) if h.type else ''}:' around {parser_var}.mal() catches the error "
+                                 f"raised by the error listener and carries on"
+                                 + (" with a second parse on the same lexer: the lexer is not rewound, it resumes behind "
+                                    "the characters that caused the error, the retry never sees them and succeeds"
+                                    if retry else ": the malformed file does not make compile() fail")),
+                            file=rel, line=h.lineno, props=props))
+            cur = par
     # (a3) compile() is re-entered for every include (through the visitor): per-compilation error state
     # must not be reset inside it while an outer invocation still has to test it
     resets = []
